@@ -168,6 +168,9 @@ func rules(r *rand.Rand, hostile bool) ([][]string, []any) {
 	return out, t
 }
 
+// KeyTree is the tree form of a key as it appears in layouts.
+func KeyTree(k intoto.Key) map[string]any { return keyTree(k) }
+
 func keyTree(k intoto.Key) map[string]any {
 	kv := map[string]any{"public": k.KeyVal.Public}
 	if k.KeyVal.Private != "" {
